@@ -91,6 +91,17 @@ def judge(c, prop, bads, lines, recs):
         if not what.startswith(prefixes):
             continue
         e = json.loads(lines[b["l"] - 1])
+        if e.get("fn") == "proto":
+            evs = e["events"]
+            i = next((k for k, x in enumerate(evs) if x["p"] == what.split(":", 1)[1]), 0)
+            c.violation(what, "%s in run %s: hook events around the offending one: %s (expected holder/state %s)" % (
+                what, e.get("hist"), [(x["g"], x["p"], x["t"]) for x in evs[max(0, len(evs) - 12):]] if "not-released" in what else [(x["g"], x["p"], x["t"]) for x in evs[max(0, i - 8):i + 3]],
+                b["exp"]), {"spec": b, "tail": evs[-30:]})
+            continue
+        if e.get("fn") == "txnseq":
+            c.violation(what, "%s: session transaction [%s] (committed=%s); catalog at its linearization point {%s}; published {%s}" % (
+                what, "; ".join(brief_call(x) for x in e["calls"]), e["committed"], brief_state(e["pre"])[:500], brief_state(e["post"])[:500]), {"event": e, "spec": b})
+            continue
         if e.get("fn") in ("txn", "blocked", "snapcheck"):
             if e["fn"] == "snapcheck":
                 txt = "a %s taken earlier (snapshot %s) returned different contents after step %s of history %s" % (e["kind"], e["id"], e["step"], e["hist"])
@@ -135,6 +146,11 @@ def cover(c, lines, nontrivial, stride=3):
         if e.get("fn") == "clean":
             if i % 50 == 0:
                 nontrivial.add(("clean", e["len"], e["dropped"], e["minSize"], e["maxSize"]))
+            continue
+        if e.get("fn") == "txnseq":
+            nontrivial.add(("txnseq", e["committed"], len(e["ev"])))
+            continue
+        if e.get("fn") == "proto":
             continue
         if e.get("fn") in ("txn", "blocked", "snapcheck"):
             nontrivial.add((e["fn"], e.get("what") or e.get("kind") or e.get("op"), e.get("err"), e.get("storefail")))
